@@ -45,6 +45,7 @@ var c12PerDay = [][]string{
 	{"csv", "log"}, {"print"}, {"reg", "-f", "r"}, {"reg", "-s", "cal"}, {"reg", "-s", "fat", "--csv"},
 	{"reg", "-e", "2021/01/25"}, {"print", "-b", "2021/01/25", "-e", "2021/01/26"},
 	{"reg", "-s", "k/r1"}, // X that is a recipe of the book and a logged food at once
+	{"(colour)", "reg"},   // the plain invocation, escape codes and all
 }
 var c12Period = [][]string{{"bal"}, {"report", "totals"}, {"report", "quantity"}, {"bal", "-s", "cal"}, {"reg", "-s", "cal", "-g"}, {"bal", "-e", "2021/01/25"}}
 
@@ -144,6 +145,9 @@ func checkC12(w *Worker) {
 			run := func(cmd []string, h []int) AppRun {
 				key := fmt.Sprint(bi, cmd, h)
 				rc := appCase{Args: append([]string{"--no-color"}, cmd...), Files: map[string]string{"food.yaml": bookText, "log.yaml": text(h)}}
+				if cmd[0] == "(colour)" {
+					rc.Args = append([]string{}, cmd[1:]...)
+				}
 				if r, ok := cache[key]; ok {
 					logRun(rc, r)
 					return r
